@@ -277,7 +277,7 @@ pub fn random_cfg(rng: &mut Sm, i: usize, saturated: bool) -> MomCfg {
         decay: *rng.pick(&[0.2, 0.5, 0.9, 1.0]),
         demand,
         scale: scale_sign * *rng.pick(&[0.5, 2.0, 10.0]),
-        order_ratio: *rng.pick(&[0.0, 1.0, 1.0, 3.0]),
+        order_ratio: *rng.pick(&[0.0, 1.0, 1.0, 3.0, 0.5, 0.25]),
         mu: 1.0,
         sigma: 0.5,
         path,
